@@ -66,14 +66,42 @@ def _in_lazy_branch(node):
             for st in a.body:
                 if isinstance(st, ast.If) and 'lazy_number_validation' in src(st.test):
                     return True
+        if isinstance(a, ast.If) and 'lazy_number_validation' in src(a.test) and not src(a.test).startswith('not '):
+            return True
     return False
 
 
+_HELPER_SUMMARIES = {}
+
+
+def _helper_summary(m, ci, g, idx):
+    """what a helper (a module level function or another method of the datatype class) establishes about the value handed to
+    it as its parameter number idx, on its normal ways out - the opt-in lazy_number_validation branch excepted"""
+    key = (id(m), g.qualname, idx)
+    if key in _HELPER_SUMMARIES:
+        return _HELPER_SUMMARIES[key]
+    _HELPER_SUMMARIES[key] = None      # recursion guard
+    if len(g.node.args.args) <= idx:
+        return None
+    ma = MethodAnalysis(m, ci, g, {}, param_index=idx)
+    states = []
+    for node in ma.cfg.nodes:
+        if isinstance(node.ast, ast.Return) and not _in_lazy_branch(node.ast):
+            st = ma.outs.get(node.id, ma.ins.get(node.id, {})).get(ma.param) if hasattr(ma, 'outs') else None
+            if st is not None:
+                states.append(st)
+    res = None
+    for st in states:
+        res = st if res is None else _join(res, st)
+    _HELPER_SUMMARIES[key] = res
+    return res
+
+
 class MethodAnalysis:
-    def __init__(self, m, ci, f, summaries):
+    def __init__(self, m, ci, f, summaries, param_index=1):
         self.m, self.ci, self.f = m, ci, f
         self.summaries = summaries
-        self.param = f.node.args.args[1].arg if len(f.node.args.args) > 1 else None
+        self.param = f.node.args.args[param_index].arg if len(f.node.args.args) > param_index else None
         self.cfg = _CFG(f.node, m, f.module, may_raise=_may_raise_ops)
         self.ins = {}
         if self.param:
@@ -97,10 +125,27 @@ class MethodAnalysis:
                         if RANK.get(state[0], 2) == 0:
                             state = ('SIZED', state[1])
                         state = _seq_upgrade(state)
+                    else:
+                        g, idx = self._helper(n)
+                        if g is not None and g is not self.f:
+                            state = _join_up(state, _helper_summary(self.m, self.ci, g, idx))
                 # TupleOf.validate(self, value, previous)
                 if len(n.args) > 1 and src(n.args[1]) == p and src(n.func).endswith('.validate') and src(n.args[0]) == 'self':
                     state = ('VALID', state[1])
         return state
+
+    def _helper(self, call):
+        """(FuncInfo, index of the parameter that receives the first argument) of a helper defined in the repository"""
+        fn = call.func
+        if isinstance(fn, ast.Name):
+            g = self.m.functions.get(f'{self.f.module.name}.{fn.id}')
+            return (g, 0) if g is not None and g.cls is None else (None, 0)
+        if isinstance(fn, ast.Attribute) and dotted(fn.value) == 'self' and self.ci is not None and fn.attr not in ('check_type', 'validate', 'import_value', 'export_value'):
+            for q in self.m.mro(self.ci.qualname):
+                c = self.m.classes.get(q)
+                if c is not None and fn.attr in c.methods:
+                    return c.methods[fn.attr], 1
+        return None, 0
 
     def _run(self):
         p = self.param
@@ -121,10 +166,22 @@ class MethodAnalysis:
                     and isinstance(a.value.right, ast.Constant) and isinstance(a.value.right.value, float):
                 st[p] = ('NUM', state[1])
                 return st
+            if isinstance(a, (ast.Return, ast.Expr, ast.Assign)) and a.value is not None and not any(src(t) == p for t in getattr(a, 'targets', [])) and \
+                    any(isinstance(x, ast.BinOp) and isinstance(x.op, ast.Add) and src(x.left) == p and isinstance(x.right, ast.Constant)
+                        and isinstance(x.right.value, float) for x in ast.walk(a.value)):
+                st[p] = ('NUM', state[1])       # `return value + 0.0`: evaluated successfully only for a number
+                return st
             state = self._apply_call_effects(a, state)
             if isinstance(a, ast.Assign) and any(src(t) == p for t in a.targets):
                 v = a.value
-                if isinstance(v, ast.Call) and src(v.func) == 'self':
+                hs = None
+                if isinstance(v, ast.Call) and v.args and src(v.args[0]) == p:
+                    g, idx = self._helper(v)
+                    if g is not None and g is not self.f:
+                        hs = _helper_summary(self.m, self.ci, g, idx)
+                if hs is not None and hs[0] == 'NUM' and any(isinstance(x, ast.Return) for x in ast.walk(g.node)):
+                    state = ('NUM', state[1])   # `value = as_float(value)`: the helper hands back the number it made of it
+                elif isinstance(v, ast.Call) and src(v.func) == 'self':
                     state = ('VALID', state[1])
                 elif isinstance(v, ast.Call) and dotted(v.func) in ('int', 'float'):
                     state = ('NUM', state[1])
@@ -722,7 +779,7 @@ def declared_limits_enforced(ctx):
                     continue
                 cfg = ma.cfg
                 for n in cfg.nodes:
-                    if n.kind == 'test' and f'self.{prop}' in src(n.ast) and any(isinstance(x, ast.Compare) for x in ast.walk(n.ast)):
+                    if n.kind == 'test' and isinstance(n.ast, ast.expr) and f'self.{prop}' in src(resolved(n.ast, ma.f.node)) and any(isinstance(x, ast.Compare) for x in ast.walk(n.ast)):
                         reach = cfg.reach([n.id])
                         for i in reach:
                             a = cfg.nodes[i].ast
@@ -737,46 +794,63 @@ def declared_limits_enforced(ctx):
 
 @rule('C01.R8', min_instances=2)
 def tolerance_branch_clamps(ctx):
-    """FloatRange.validate / ScaledInteger.validate return clamp(min, value, max) from the within-tolerance branch"""
+    """FloatRange.validate / ScaledInteger.validate accept a value that lies outside the limits by not more than the resolution;
+    what they return then is clamp(min, value, max) with the LIVE limits.  A return of the (converted) value itself is fine
+    only where the tests established that it lies inside the exact limits"""
     m = ctx.m
     for cname in ('FloatRange', 'ScaledInteger'):
         f = m.method(f'{DT}.{cname}', 'validate', inherited=False)
         ctx.analysed(f)
-        rets = [n for n in body_walk(f.node) if isinstance(n, ast.Return) and n.value is not None and
-                any(isinstance(a, ast.If) and ('self.min' in src(a.test) and 'self.max' in src(a.test)) for a in ancestors(n))]
-        if not rets:
-            ctx.undecided(f'{f.qualname}:tolerance branch', f.node, 'no return inside a branch comparing with self.min and self.max', f)
+        cfg = CFG(f.node, m, f.module)
+        vnames = _value_names(f)
+
+        def exact(prop, a, tv):
+            if not tv:
+                return False
+            for lc in _limit_comparisons(resolved(a, f.node), {prop}):
+                if lc.exact and lc[1] == 'accepting':
+                    return True
+            return False
+        inside = sides_with_fact(cfg, lambda a, tv: exact('min', a, tv)) & sides_with_fact(cfg, lambda a, tv: exact('max', a, tv))
+        tolerant = any(not lc.exact for t in cfg.nodes if t.kind == 'test' and isinstance(t.ast, ast.expr)
+                       for lc in _limit_comparisons(resolved(t.ast, f.node), {'min', 'max'}))
+        rets = [n for n in body_walk(f.node) if isinstance(n, ast.Return) and n.value is not None and (names_in(n.value) & vnames or isinstance(n.value, ast.Call))]
+        if not rets or not tolerant:
+            ctx.undecided(f'{f.qualname}:tolerance branch', f.node, 'no tolerance comparison / no return of the value found', f)
             continue
         for r in rets:
-            v = r.value
-            ok = isinstance(v, ast.Call) and dotted(v.func) == 'clamp' and len(v.args) == 3 and 'self.min' in src(v.args[0]) and 'self.max' in src(v.args[2])
-            if isinstance(v, ast.Call) and dotted(v.func) == 'clamp' and len(v.args) == 3 and not ok:
-                # the bounds may be bound to locals first: they have to be computed from the LIVE limits (self.min / self.max), not
-                # from something remembered at construction time (the limits are properties that configuration overrides change)
-                lo = ' '.join(src(o) for o in origins(v.args[0], f.node))
-                hi = ' '.join(src(o) for o in origins(v.args[2], f.node))
+            v = resolved(r.value, f.node)
+            key = f'{f.qualname}:tolerance branch returns a clamped value'
+            if set(cfg.ids(r)) <= inside:
+                ctx.ok(key, r, f'`{src(r)}` lies where the value was found inside the exact limits', f)
+                continue
+            isclamp = isinstance(v, ast.Call) and dotted(v.func) == 'clamp' and len(v.args) == 3
+            if isclamp:
+                lo, hi = src(v.args[0]), src(v.args[2])
+                # the bounds have to be computed from the LIVE limits (self.min / self.max), not from something remembered at
+                # construction time (the limits are properties that configuration overrides change)
                 for nm in [x for x in (v.args[0], v.args[2]) if isinstance(x, ast.Name)]:
                     for val, st, how in local_assigns(f.node, nm.id):
                         if how in ('unpack', 'assign') and val is not None:
                             lo += ' ' + src(val)
                             hi += ' ' + src(val)
                 if 'self.min' in lo and 'self.max' in hi:
-                    ok = True
+                    ctx.ok(key, r, src(v), f)
                 else:
-                    ctx.bad(f'{f.qualname}:tolerance branch returns a clamped value', r, f'`{src(v)}` clamps with bounds that are not computed from self.min / self.max '
+                    ctx.bad(key, r, f'`{src(v)}` clamps with bounds that are not computed from self.min / self.max '
                             f'at the time of the call ({lo.strip() or "?"} / {hi.strip() or "?"}): limits changed after construction (a configured max, a parameter override) '
                             'are checked by the range test but the value is clamped to the OLD limits - a value outside the declared set is returned', f)
-                    continue
+                continue
             nest = isinstance(v, ast.Call) and dotted(v.func) in ('min', 'max') and any(isinstance(x, ast.Call) and dotted(x.func) in ('min', 'max') for x in v.args)
-            if ok or nest:
-                ctx.ok(f'{f.qualname}:tolerance branch returns a clamped value', r, src(v), f)
-            elif isinstance(v, ast.Call) and not (names_in(v) & _value_names(f)):
-                ctx.bad(f'{f.qualname}:tolerance branch returns a clamped value', r, f'the within-tolerance branch returns `{src(v)}`, which does not depend '
+            if nest:
+                ctx.ok(key, r, src(v), f)
+            elif isinstance(v, ast.Call) and not (names_in(v) & vnames):
+                ctx.bad(key, r, f'the within-tolerance branch returns `{src(v)}`, which does not depend '
                         'on the offered value at all: every accepted value is replaced by the same one', f)
-            elif isinstance(v, ast.Call):
-                ctx.undecided(f'{f.qualname}:tolerance branch returns a clamped value', r, f'`{src(v)}` not a recognised clamp form', f)
+            elif isinstance(v, (ast.Call, ast.IfExp)):
+                ctx.undecided(key, r, f'`{src(v)}` not a recognised clamp form', f)
             else:
-                ctx.bad(f'{f.qualname}:tolerance branch returns a clamped value', r, f'the within-tolerance branch returns `{src(v)}` unclamped: '
+                ctx.bad(key, r, f'`{src(r)}` hands the value back unclamped where it may lie outside the limits by up to the resolution: '
                         'a value just outside the limits is returned although it is not in the value set', f)
 
 
@@ -949,6 +1023,14 @@ def int_of_the_value_itself(ctx):
                     floaty = True
                 if isinstance(o, ast.Call) and dotted(o.func) == 'float':
                     floaty = True
+                # the result of a helper that makes a float of the value (its returns are float(...) / `x + 0.0`)
+                if isinstance(o, ast.Call) and isinstance(o.func, ast.Name) and f'{f.module.name}.{o.func.id}' in m.functions:
+                    h = m.functions[f'{f.module.name}.{o.func.id}']
+                    for r in [x for x in body_walk(h.node) if isinstance(x, ast.Return) and x.value is not None]:
+                        for ho in (origins(r.value, h.node) if isinstance(r.value, ast.Name) else [r.value]):
+                            if (isinstance(ho, ast.Call) and dotted(ho.func) == 'float') or \
+                                    (isinstance(ho, ast.BinOp) and any(isinstance(x, ast.Constant) and isinstance(x.value, float) for x in (ho.left, ho.right))):
+                                floaty = True
             ctx.check(not floaty, f'{f.qualname}:int() of the value itself', c, f'int({src(a)})',
                       f'`{src(c)}` converts the float copy made for the whole-number test: integers above 2**53 (64 bit ids, Int64/UInt64 limits) '
                       'silently change their value (2**63 - 1 becomes 2**63, which is even outside the declared range)', f)
@@ -1258,7 +1340,7 @@ def refusing_side_of_every_limit_test_raises(ctx):
             for t in cfg.nodes:
                 if t.kind != 'test':
                     continue
-                cmps = _limit_comparisons(t.ast, props)
+                cmps = _limit_comparisons(resolved(t.ast, ma.f.node) if isinstance(t.ast, ast.expr) else t.ast, props)
                 if not cmps:
                     continue
                 ctx.analysed(ma.f)
@@ -1269,7 +1351,20 @@ def refusing_side_of_every_limit_test_raises(ctx):
                     ctx.undecided(key, t.ast, f'`{src(t.ast)}` mixes accepting and violating comparisons', ma.f)
                     continue
                 label = 'T' if kinds == {'violating'} else 'F'
-                ctx.check(_side_never_completes(cfg, t.id, label), key, t.ast, f'`{src(t.ast)}`: the {label} side ends in a raise',
+                # the violating side raises - or reaches a normal exit only through the accepting side of ANOTHER test of the same
+                # limit (a fast path on the exact limits followed by the test with the resolution tolerance)
+                pset = {p for p, k, s in cmps}
+                fnode = ma.f.node
+
+                def accepted_later(a, tv, pset=pset, fnode=fnode, me=t.ast):
+                    if a is me:
+                        return False
+                    lcs = _limit_comparisons(resolved(a, fnode), pset)
+                    return bool(lcs) and all((k == 'accepting') == tv for p, k, s in lcs)
+                first = [b for b, lab in cfg.succ[t.id] if lab == label]
+                ok11 = _side_never_completes(cfg, t.id, label) or \
+                    (bool(first) and cfg.exit not in first and paths_need_fact(cfg, first, [cfg.exit], accepted_later))
+                ctx.check(ok11, key, t.ast, f'`{src(t.ast)}`: the {label} side ends in a raise',
                           f'`{src(t.ast)}`: on the side where the limit is violated the method goes on and returns normally - '
                           f'a value outside the declared {names} is accepted', ma.f)
                 # `self.maxlen is not None and len(value) > self.maxlen`: a None-guard of the limit has to let the comparison
